@@ -223,9 +223,14 @@ func VerifC05Retry() {
 func VerifC05AfterShutdown() {
 	vc05Backoffs = nil
 	vc05Cfg = configretry.BackOffConfig{Enabled: true, InitialInterval: time.Second, MaxInterval: time.Minute, Multiplier: 1.5, RandomizationFactor: 0.5}
-	attempts := 0
+	attempts, before := 0, 0
 	next := sender.NewSender(func(context.Context, request.Request) error {
 		attempts++
+		// checked at the moment a second attempt begins (the sender may otherwise never return)
+		vAssert(attempts == before+1, "after-shutdown/no-retry-while-shutting-down")
+		if attempts != before+1 {
+			return nil
+		}
 		return errors.New("transient")
 	})
 	rs := &retrySender{cfg: vc05Cfg, stopCh: make(chan struct{}), logger: zap.NewNop(), next: next}
@@ -236,7 +241,7 @@ func VerifC05AfterShutdown() {
 	vAssert(rs.Shutdown(context.Background()) == nil, "after-shutdown/shutdown-ok")
 	N := vParam("requests")
 	for i := 0; i < N; i++ {
-		before := attempts
+		before = attempts
 		err := rs.Send(context.Background(), &vc05Req{id: i, items: 1})
 		vAssert(attempts == before+1, "after-shutdown/no-retry-while-shutting-down")
 		vAssert(experr.IsShutdownErr(err), "after-shutdown/every-interrupted-wait-ends-with-a-shutdown-error")
